@@ -16,7 +16,6 @@ def showPyth : Except PythErr Decimal → String
   | .error .exponentTooBig => "err ExponentTooBig"
   | .error .priceOverflow => "err PriceOverflow"
   | .error .converting => "err Converting"
-  | .error .panic => "panic"
 
 def pdecEngine (args : List String) : String :=
   match args with
